@@ -45,16 +45,24 @@ func Copy(ctx context.Context, ids []ChunkID, src Store, dst WriteStore, n int, 
 	}
 
 	// Feed the workers, the context is cancelled if any goroutine encounters an error
+	var interrupted bool
 loop:
 	for _, c := range ids {
 		verifYield("copy.feed")
 		select {
 		case <-ctx.Done():
+			interrupted = true
 			break loop
 		case in <- c:
 		}
 	}
 	close(in)
 
-	return g.Wait()
+	if err := g.Wait(); err != nil {
+		return err
+	}
+	if interrupted { // stopped early without a worker failing, not everything was copied
+		return Interrupted{}
+	}
+	return nil
 }
